@@ -189,6 +189,17 @@ struct C05 : public Driver {
                 if (feat == "tree") { size_t k = 0; while (k < c.size() && k < refCanon.size() && c[k] == refCanon[k]) ++k; size_t q = refCanon.rfind("^f=", k); if (q != std::string::npos) { size_t e = refCanon.find(';', q); feat = refCanon.substr(q + 3, e == std::string::npos ? 20 : e - q - 3); } }
                 // the dimension held responsible: the source form if it differs, else the stylesheet form, else the (tree) target
                 std::string which = f.str("src") != rf.str("src") ? "src:" + f.str("src") : f.str("ss") != rf.str("ss") ? "ss:" + f.str("ss") : "target:" + f.str("target");
+                // Attribution by difference.  A stylesheet that a bit flip changed (or a feature marker that does not precede the difference) leaves
+                // the feature unknown.  The Xerces-DOM-backed source forms are known to show the DocumentType node to node() tests: if the same pair
+                // of forms agrees once the DOCTYPE is taken out of the document, that node is what the difference is about.
+                if (feat != "doctype-node" && feat != "ns-axis" && plan.boolean("dtd") && (f.str("src") == "parsed-xerces" || f.str("src") == "wrapper")) {
+                    std::string doc = plan.str("doc"); size_t a = doc.find("<!DOCTYPE"), b = a == std::string::npos ? a : doc.find("]>", a);
+                    if (b != std::string::npos) {
+                        Json p2 = plan; p2["doc"] = doc.substr(0, a) + doc.substr(b + 2); Result scratch;
+                        FormOut r2 = runForm(p2, rf, scratch), o2 = runForm(p2, f, scratch);
+                        if (r2.status == 0 && o2.status == 0 && !r2.threw && !o2.threw && canonOf(r2) == canonOf(o2)) { feat = "doctype-node"; res.count("attributed-by-difference:doctype-node"); }
+                    }
+                }
                 res.violate("tree-differs", which + "|" + feat, "form " + dim + " vs reference: " + d);
             }
         }
